@@ -7,8 +7,7 @@ from props.c04 import TRUST
 
 
 def run(ses):
-    for unit in ("leader", "volume", "image10s", "image11s"):
-        records.check_unit(ses, unit, ["sorts"])
+    records.check_units(ses, ("leader", "volume", "image10s", "image11s"), ["sorts"])
     wrapper_obligations(ses)
     # declared dtype / shape == dtype / shape of the loaded selection (all row selections incl. empty, both sample types)
     from pyvc.harness import run_cases
